@@ -515,6 +515,376 @@ Proof.
 Qed.
 End LsLen.
 
+
+(* ---- a predicate on vectors satisfied by every sweep result is satisfied by the selection ---- *)
+Section LsPred.
+Variable nn : list F -> list F -> nat -> nat -> res (F * list F).
+Variables signal response : list F.
+Variable P : list F -> Prop.
+Hypothesis nn_P : forall off la r inp, nn signal response off la = Ok (r, inp) -> P inp.
+
+Lemma ls_step_P best off la b : P (snd best) -> ls_step nn signal response best off la = Ok b -> P (snd b).
+Proof.
+  intros Hb H. apply ls_step_ok in H. destruct H as [r [inp [Hn ->]]].
+  destruct (ltb r (fst best)); [cbn [snd]; eapply nn_P; eassumption | assumption].
+Qed.
+Lemma ls_inner_P : forall las best off b, P (snd best) -> ls_inner nn signal response best off las = Ok b -> P (snd b).
+Proof.
+  induction las as [|la t IH]; intros best off b Hb; cbn [Greedy.ls_inner]; [intros [= <-]; assumption|].
+  intros H. apply bind_ok in H. destruct H as [b1 [H1 H2]]. apply (IH _ _ _ (ls_step_P _ _ _ _ Hb H1) H2).
+Qed.
+Lemma ls_outer_P : forall offs best las b, P (snd best) -> ls_outer nn signal response best offs las = Ok b -> P (snd b).
+Proof.
+  induction offs as [|off t IH]; intros best las b Hb; cbn [Greedy.ls_outer]; [intros [= <-]; assumption|].
+  intros H. apply bind_ok in H. destruct H as [b1 [H1 H2]]. apply (IH _ _ _ (ls_inner_P _ _ _ _ Hb H1) H2).
+Qed.
+Lemma ls_deconv_P offs las out : P [] -> ls_deconv nn signal response offs las = Ok out -> P out.
+Proof.
+  unfold Greedy.ls_deconv. intros H0 H. apply bind_ok in H. destruct H as [b [Hb [= <-]]].
+  eapply ls_outer_P; [|exact Hb]. exact H0.
+Qed.
+End LsPred.
+
+(* ========== (4) sign of the outputs ========== *)
+Section Sign.
+Variable ge0 : F -> Prop.
+Hypothesis ge0_zero : ge0 zero.
+(* quotient of a sample that is not >= 0 by a negative response value *)
+Hypothesis ge0_quot : forall s r, nonneg s = false -> neg r = true -> ge0 (div s r).
+Hypothesis ge0_min : forall a b, ge0 a -> ge0 b -> ge0 (fmin a b).
+
+Lemma zip_div_ge0 : forall win rwin,
+  existsb nonneg win = false -> forallb neg rwin = true -> Forall ge0 (zip_div win rwin).
+Proof.
+  induction win as [|s t IH]; intros rwin Hw Hr; [constructor|].
+  destruct rwin as [|r rt]; [constructor|]. cbn [Greedy.zip_div].
+  cbn [existsb] in Hw. apply orb_false_iff in Hw. destruct Hw as [Hs Ht].
+  cbn [forallb] in Hr. apply andb_true_iff in Hr. destruct Hr as [Hr Hrt].
+  constructor; [apply ge0_quot; assumption | apply IH; assumption].
+Qed.
+Lemma fold_min_ge0 : forall qs q, ge0 q -> Forall ge0 qs -> ge0 (fold_left fmin qs q).
+Proof.
+  induction qs as [|x t IH]; intros q Hq Hqs; [assumption|]. cbn [fold_left].
+  inversion Hqs; subst. apply IH; [apply ge0_min; assumption | assumption].
+Qed.
+Lemma fire_ge0 response rwin win rest val rest' :
+  existsb nonneg win = false -> forallb neg rwin = true ->
+  fire response rwin win rest = Ok (val, rest') -> ge0 val.
+Proof.
+  intros Hw Hr. unfold Greedy.fire. assert (Hq := zip_div_ge0 _ _ Hw Hr).
+  destruct (zip_div win rwin) as [|q qs]; cbn; [discriminate|].
+  intros [= <- _]. inversion Hq; subst. apply fold_min_ge0; assumption.
+Qed.
+Lemma advance_ge0 : forall k rest ai ar r' ai' ar',
+  advance k rest ai ar = (r', ai', ar') -> Forall ge0 ai -> Forall ge0 ai'.
+Proof.
+  induction k as [|k IH]; intros rest ai ar r' ai' ar'; cbn [Greedy.advance].
+  - intros [= _ <- _]. auto.
+  - destruct rest as [|x t]; [intros [= _ <- _]; auto|].
+    intros H Ha. apply (IH _ _ _ _ _ _ H). constructor; assumption.
+Qed.
+Lemma repeat_ge0 n : Forall ge0 (repeat zero n).
+Proof. induction n; cbn; constructor; assumption. Qed.
+
+Lemma greedy_loop_ge0 response rwin off la : forallb neg rwin = true ->
+  forall fuel rest ai ar residual input,
+  Forall ge0 ai -> greedy_loop response rwin off la fuel rest ai ar = Ok (residual, input) -> Forall ge0 input.
+Proof.
+  intros Hr. induction fuel as [|f IH]; intros rest ai ar residual input Ha; cbn [Greedy.greedy_loop]; [discriminate|].
+  destruct (slice rest off la) as [win|] eqn:Hs.
+  - destruct (last_nonneg win) as [lp|] eqn:El.
+    + destruct (advance (S lp) rest ai ar) as [[r' ai'] ar'] eqn:Hadv.
+      apply IH. eapply advance_ge0; eassumption.
+    + apply last_nonneg_none in El.
+      destruct (fire response rwin win rest) as [[val rest']| |] eqn:Ef; cbn [bind]; try discriminate.
+      destruct rest' as [|x t]; [discriminate|].
+      apply IH. constructor; [eapply fire_ge0; eassumption | assumption].
+  - intros [= _ <-]. apply Forall_app. split; [apply Forall_rev; assumption | apply repeat_ge0].
+Qed.
+
+Theorem nn_greedy_nonneg_sec signal response off la r inp :
+  nn_greedy signal response off la = Ok (r, inp) -> Forall ge0 inp.
+Proof.
+  unfold Greedy.nn_greedy, Greedy.nn_with.
+  destruct (unwrap (slice response off la)) as [rwin| |]; cbn [bind]; try discriminate.
+  unfold assert_. destruct (forallb neg rwin) eqn:Hr; [|discriminate].
+  destruct (greedy_loop response rwin off la (S (length signal)) signal [] []) as [[residual input]| |] eqn:E;
+    cbn [bind]; try discriminate.
+  intros [= _ <-]. eapply greedy_loop_ge0; [exact Hr| |exact E]. constructor.
+Qed.
+Theorem ls_deconv_nonneg_sec signal response offs las out :
+  ls_deconv nn_greedy signal response offs las = Ok out -> Forall ge0 out.
+Proof.
+  apply (ls_deconv_P nn_greedy signal response (Forall ge0)); [|constructor].
+  intros off la r inp. apply nn_greedy_nonneg_sec.
+Qed.
+End Sign.
+
+(* ========== (5) covariance under an exact scaling of the samples ========== *)
+Definition res_map {A B} (f : A -> B) (r : res A) : res B :=
+  match r with Ok a => Ok (f a) | Err k => Err k | Panic => Panic end.
+
+Section Scale.
+Variable sc : F -> F.     (* x |-> c * x on samples and amplitudes *)
+Variable sc2 : F -> F.    (* x |-> c^2 * x on the residual sum of squares *)
+Hypothesis sc_zero : sc zero = zero.
+Hypothesis sc_sub : forall a b, sub (sc a) (sc b) = sc (sub a b).
+Hypothesis sc_mul : forall v r, mul (sc v) r = sc (mul v r).
+Hypothesis sc_div : forall s r, div (sc s) r = sc (div s r).
+Hypothesis sc_min : forall a b, fmin (sc a) (sc b) = sc (fmin a b).
+Hypothesis sc_nonneg : forall x, nonneg (sc x) = nonneg x.
+Hypothesis sc_sq : forall x, mul (sc x) (sc x) = sc2 (mul x x).
+Hypothesis sc2_add : forall a b, add (sc2 a) (sc2 b) = sc2 (add a b).
+Hypothesis sc2_szero : sc2 szero = szero.
+Hypothesis sc2_ltb : forall a b, ltb (sc2 a) (sc2 b) = ltb a b.
+Hypothesis sc2_inf : sc2 inf = inf.
+
+Notation msc := (map sc).
+Definition sc_pair (p : list F * list F) : list F * list F := (msc (fst p), msc (snd p)).
+Definition sc_out (p : F * list F) : F * list F := (sc2 (fst p), msc (snd p)).
+
+Lemma drop_exact_map n : forall l, drop_exact n (msc l) = option_map msc (drop_exact n l).
+Proof. induction n as [|n IH]; intros l; [reflexivity|]. destruct l as [|x t]; [reflexivity|]. apply IH. Qed.
+Lemma take_exact_map n : forall l, take_exact n (msc l) = option_map msc (take_exact n l).
+Proof.
+  induction n as [|n IH]; intros l; [reflexivity|]. destruct l as [|x t]; [reflexivity|].
+  cbn [map Greedy.take_exact]. rewrite IH. destruct (take_exact n t); reflexivity.
+Qed.
+Lemma slice_map l off la : slice (msc l) off la = option_map msc (slice l off la).
+Proof.
+  unfold Greedy.slice. rewrite drop_exact_map. destruct (drop_exact off l); [apply take_exact_map|reflexivity].
+Qed.
+Lemma last_nonneg_map w : last_nonneg (msc w) = last_nonneg w.
+Proof.
+  induction w as [|x t IH]; [reflexivity|]. cbn [map Greedy.last_nonneg]. rewrite IH, sc_nonneg. reflexivity.
+Qed.
+Lemma zip_div_map : forall w rw, zip_div (msc w) rw = msc (zip_div w rw).
+Proof.
+  induction w as [|s t IH]; intros rw; [reflexivity|]. destruct rw as [|r rt]; [reflexivity|].
+  cbn [map Greedy.zip_div]. rewrite sc_div, IH. reflexivity.
+Qed.
+Lemma fold_min_map : forall qs q, fold_left fmin (msc qs) (sc q) = sc (fold_left fmin qs q).
+Proof. induction qs as [|x t IH]; intros q; [reflexivity|]. cbn [map fold_left]. rewrite sc_min. apply IH. Qed.
+Lemma reduce_min_map l : reduce_min (msc l) = option_map sc (reduce_min l).
+Proof. destruct l as [|q qs]; [reflexivity|]. cbn [map Greedy.reduce_min option_map]. rewrite fold_min_map. reflexivity. Qed.
+Lemma sub_scaled_map : forall rest resp v, sub_scaled (msc rest) resp (sc v) = msc (sub_scaled rest resp v).
+Proof.
+  induction rest as [|s t IH]; intros resp v; [reflexivity|]. destruct resp as [|r rt]; [reflexivity|].
+  cbn [map Greedy.sub_scaled]. rewrite sc_mul, sc_sub, IH. reflexivity.
+Qed.
+Lemma advance_map : forall k rest ai ar,
+  advance k (msc rest) (msc ai) (msc ar) =
+  (let '(r', ai', ar') := advance k rest ai ar in (msc r', msc ai', msc ar')).
+Proof.
+  induction k as [|k IH]; intros rest ai ar; [reflexivity|]. destruct rest as [|x t]; [reflexivity|].
+  cbn [Greedy.advance]. rewrite <- (IH t (zero :: ai) (x :: ar)). cbn [map Greedy.advance]. rewrite sc_zero. reflexivity.
+Qed.
+Lemma finish_map rest ai ar : finish (msc rest) (msc ai) (msc ar) = sc_pair (finish rest ai ar).
+Proof.
+  unfold Greedy.finish, sc_pair. cbn [fst snd]. rewrite !map_app, !map_rev, map_length.
+  f_equal. f_equal. induction (length rest) as [|n IH]; [reflexivity|]. cbn [repeat map]. rewrite sc_zero, <- IH. reflexivity.
+Qed.
+Lemma fire_map response rwin win rest :
+  fire response rwin (msc win) (msc rest) = res_map (fun p => (sc (fst p), msc (snd p))) (fire response rwin win rest).
+Proof.
+  unfold Greedy.fire. rewrite zip_div_map, reduce_min_map.
+  destruct (reduce_min (zip_div win rwin)) as [v|]; [|reflexivity].
+  cbn [option_map unwrap bind res_map fst snd]. rewrite sub_scaled_map. reflexivity.
+Qed.
+
+Lemma greedy_loop_map response rwin off la : forall fuel rest ai ar,
+  greedy_loop response rwin off la fuel (msc rest) (msc ai) (msc ar) =
+  res_map sc_pair (greedy_loop response rwin off la fuel rest ai ar).
+Proof.
+  induction fuel as [|f IH]; intros rest ai ar; [reflexivity|]. cbn [Greedy.greedy_loop].
+  rewrite slice_map. destruct (slice rest off la) as [win|]; cbn [option_map].
+  - rewrite last_nonneg_map. destruct (last_nonneg win) as [lp|].
+    + rewrite advance_map. destruct (advance (S lp) rest ai ar) as [[r' ai'] ar']. apply IH.
+    + rewrite fire_map. destruct (fire response rwin win rest) as [[val rest']| |]; cbn [res_map bind fst snd]; try reflexivity.
+      destruct rest' as [|x t]; [reflexivity|]. apply (IH t (val :: ai) (x :: ar)).
+  - cbn [res_map]. rewrite finish_map. reflexivity.
+Qed.
+Lemma sumsq_map l : sumsq (msc l) = sc2 (sumsq l).
+Proof.
+  unfold Greedy.sumsq. rewrite <- sc2_szero at 1. generalize szero.
+  induction l as [|x t IH]; intros acc; [reflexivity|]. cbn [map fold_left]. rewrite sc_sq, sc2_add. apply IH.
+Qed.
+
+(* every control decision is unchanged; outputs are scaled by c, the residual by c^2 *)
+Theorem nn_greedy_scale_sec signal response off la :
+  nn_greedy (msc signal) response off la = res_map sc_out (nn_greedy signal response off la).
+Proof.
+  unfold Greedy.nn_greedy, Greedy.nn_with.
+  destruct (unwrap (slice response off la)) as [rwin| |]; cbn [bind res_map]; try reflexivity.
+  unfold assert_. destruct (forallb neg rwin); [|reflexivity].
+  rewrite map_length. change (@nil F) with (msc []) at 1 2. rewrite greedy_loop_map.
+  destruct (greedy_loop response rwin off la (S (length signal)) signal [] []) as [[residual input]| |];
+    cbn [res_map bind]; try reflexivity.
+  unfold sc_pair, sc_out. cbn [fst snd]. rewrite sumsq_map. reflexivity.
+Qed.
+
+Section LsScale.
+Variable nn : list F -> list F -> nat -> nat -> res (F * list F).
+Hypothesis nn_scale : forall signal response off la,
+  nn (msc signal) response off la = res_map sc_out (nn signal response off la).
+
+Lemma ls_step_scale signal response best off la :
+  ls_step nn (msc signal) response (sc_out best) off la = res_map sc_out (ls_step nn signal response best off la).
+Proof.
+  unfold Greedy.ls_step. rewrite nn_scale.
+  destruct (nn signal response off la) as [[r inp]| |]; cbn [res_map bind]; try reflexivity.
+  unfold sc_out at 1 2. cbn [fst snd]. rewrite sc2_ltb. destruct (ltb r (fst best)); reflexivity.
+Qed.
+Lemma ls_inner_scale signal response off : forall las best,
+  ls_inner nn (msc signal) response (sc_out best) off las = res_map sc_out (ls_inner nn signal response best off las).
+Proof.
+  induction las as [|la t IH]; intros best; [reflexivity|]. cbn [Greedy.ls_inner]. rewrite ls_step_scale.
+  destruct (ls_step nn signal response best off la) as [b| |]; cbn [res_map bind]; try reflexivity. apply IH.
+Qed.
+Lemma ls_outer_scale signal response las : forall offs best,
+  ls_outer nn (msc signal) response (sc_out best) offs las = res_map sc_out (ls_outer nn signal response best offs las).
+Proof.
+  induction offs as [|off t IH]; intros best; [reflexivity|]. cbn [Greedy.ls_outer]. rewrite ls_inner_scale.
+  destruct (ls_inner nn signal response best off las) as [b| |]; cbn [res_map bind]; try reflexivity. apply IH.
+Qed.
+Lemma ls_deconv_scale signal response offs las :
+  ls_deconv nn (msc signal) response offs las = res_map msc (ls_deconv nn signal response offs las).
+Proof.
+  unfold Greedy.ls_deconv.
+  replace (inf, @nil F) with (sc_out (inf, [])) at 1 by (unfold sc_out; cbn [fst snd map]; rewrite sc2_inf; reflexivity).
+  rewrite ls_outer_scale.
+  destruct (ls_outer nn signal response (inf, []) offs las) as [b| |]; reflexivity.
+Qed.
+End LsScale.
+
+Theorem ls_deconv_scale_sec signal response offs las :
+  ls_deconv nn_greedy (msc signal) response offs las = res_map msc (ls_deconv nn_greedy signal response offs las).
+Proof. apply ls_deconv_scale. intros. apply nn_greedy_scale_sec. Qed.
+End Scale.
+
+
+(* ========== (6) an isolated response-shaped pulse is recovered exactly ========== *)
+Section Pulse.
+Variable a : F.                      (* the amplitude *)
+Variable response : list F.
+Variable la : nat.
+Hypothesis la_pos : 1 <= la.
+Hypothesis la_len : la <= length response.
+(* table fact: the response window of offset 0 is negative *)
+Hypothesis window_neg : forallb neg (firstn la response) = true.
+(* arithmetic facts used; all hold in an ordered field for a > 0 (instantiated with Qc below) *)
+Hypothesis nonneg_zero : nonneg zero = true.
+Hypothesis pulse_neg : forall r, neg r = true -> nonneg (mul a r) = false.
+Hypothesis quot_exact : forall r, neg r = true -> div (mul a r) r = a.
+Hypothesis min_idem : fmin a a = a.
+Hypothesis sub_self : forall r, sub (mul a r) (mul a r) = zero.
+Hypothesis sum_zero : add szero (mul zero zero) = szero.
+
+Notation rwin := (firstn la response).
+Notation nl := (naive_loop response rwin 0 la).
+
+Lemma slice_zero_head l win : slice (zero :: l) 0 la = Some win -> existsb nonneg win = true.
+Proof.
+  intros H. apply slice_some_iff in H. destruct H as [_ ->]. cbn [skipn].
+  destruct la as [|la']; [lia|]. cbn [firstn existsb]. rewrite nonneg_zero. reflexivity.
+Qed.
+
+(* before the pulse: zeros are written, nothing changes *)
+Lemma phaseA : forall j fuel Pl ai ar, la <= length Pl ->
+  nl (j + fuel) (repeat zero j ++ Pl) ai ar = nl fuel Pl (repeat zero j ++ ai) (repeat zero j ++ ar).
+Proof.
+  induction j as [|j IH]; intros fuel Pl ai ar HP; [reflexivity|].
+  cbn [repeat app Nat.add Greedy.naive_loop].
+  destruct (slice (zero :: repeat zero j ++ Pl) 0 la) as [win|] eqn:Hs.
+  - rewrite (slice_zero_head _ _ Hs). rewrite IH by assumption. rewrite !repeat_snoc. reflexivity.
+  - exfalso. apply slice_none_iff in Hs. cbn [length] in Hs. rewrite app_length in Hs. lia.
+Qed.
+
+(* after the pulse: the residual is identically zero, zeros are written to the end *)
+Lemma phaseC : forall q fuel ai ar, q < fuel ->
+  nl fuel (repeat zero q) ai ar = Ok (finish (repeat zero q) ai ar).
+Proof.
+  induction q as [|q IH]; intros fuel ai ar Hf; (destruct fuel as [|fuel]; [lia|]); cbn [Greedy.naive_loop repeat].
+  - assert (H : slice [] 0 la = None) by (apply slice_none_iff; cbn [length]; lia). rewrite H. reflexivity.
+  - destruct (slice (zero :: repeat zero q) 0 la) as [win|] eqn:Hs; [|reflexivity].
+    rewrite (slice_zero_head _ _ Hs). rewrite IH by lia. rewrite finish_step. reflexivity.
+Qed.
+
+Lemma pulse_window_neg : forall w, forallb neg w = true -> existsb nonneg (map (mul a) w) = false.
+Proof.
+  induction w as [|r t IH]; [reflexivity|]. cbn [forallb map existsb]. intros H.
+  apply andb_true_iff in H. destruct H as [H1 H2]. rewrite (pulse_neg _ H1), (IH H2). reflexivity.
+Qed.
+Lemma pulse_quotients : forall w, forallb neg w = true -> zip_div (map (mul a) w) w = repeat a (length w).
+Proof.
+  induction w as [|r t IH]; [reflexivity|]. cbn [forallb map Greedy.zip_div length repeat]. intros H.
+  apply andb_true_iff in H. destruct H as [H1 H2]. rewrite (quot_exact _ H1), (IH H2). reflexivity.
+Qed.
+Lemma fold_min_repeat n : fold_left fmin (repeat a n) a = a.
+Proof. induction n as [|n IH]; [reflexivity|]. cbn [repeat fold_left]. rewrite min_idem. exact IH. Qed.
+Lemma sub_scaled_nil_r rest v : sub_scaled rest [] v = rest.
+Proof. destruct rest; reflexivity. Qed.
+(* subtracting a * response from the pulse leaves zeros *)
+Lemma pulse_cancel : forall resp m t, t = 0 \/ length resp <= m ->
+  sub_scaled (map (mul a) (firstn m resp) ++ repeat zero t) resp a = repeat zero (length (firstn m resp) + t).
+Proof.
+  induction resp as [|r rt IH]; intros m t Ht.
+  - rewrite firstn_nil. cbn [map app length Nat.add]. apply sub_scaled_nil_r.
+  - destruct m as [|m].
+    + destruct Ht as [->|Ht]; [reflexivity | cbn [length] in Ht; lia].
+    + cbn [firstn map app Greedy.sub_scaled length Nat.add repeat]. rewrite sub_self. f_equal.
+      apply IH. cbn [length] in Ht. lia.
+Qed.
+Lemma sumsq_zeros : forall l acc, Forall (fun x => x = zero) l -> acc = szero ->
+  fold_left (fun acc x => add acc (mul x x)) l acc = szero.
+Proof.
+  induction l as [|x t IH]; intros acc Hl Hacc; [assumption|]. cbn [fold_left].
+  inversion Hl; subst. apply IH; [assumption|apply sum_zero].
+Qed.
+Lemma Forall_repeat_zero n : Forall (fun x => x = zero) (repeat zero n).
+Proof. induction n; cbn; constructor; auto. Qed.
+Lemma rev_repeat_ (x : F) n : rev (repeat x n) = repeat x n.
+Proof.
+  induction n as [|n IH]; [reflexivity|]. cbn [repeat rev]. rewrite IH.
+  rewrite repeat_snoc, app_nil_r. reflexivity.
+Qed.
+
+(* The waveform: k zeros, then a * response (cut to m samples, m >= look_ahead), then t zeros; t > 0 only
+   if the whole response fits (m >= length response).  That is every waveform
+   signal[j] = a * response[j - k] for k <= j < min(n, k + length response), 0 elsewhere, with k + look_ahead <= n. *)
+Theorem isolated_pulse_naive k m t :
+  la <= m -> t = 0 \/ length response <= m ->
+  let P := map (mul a) (firstn m response) ++ repeat zero t in
+  nn_naive (repeat zero k ++ P) response 0 la = Ok (szero, repeat zero k ++ a :: repeat zero (length P - 1)).
+Proof.
+  intros Hm Ht P.
+  assert (HPl : length P = length (firstn m response) + t) by (unfold P; rewrite app_length, map_length, repeat_length; reflexivity).
+  assert (Hfl : la <= length (firstn m response)) by (rewrite firstn_length; lia).
+  unfold Greedy.nn_naive, Greedy.nn_with.
+  assert (Hsr : slice response 0 la = Some rwin) by (apply slice_some_iff; split; [lia|reflexivity]).
+  rewrite Hsr. cbn [unwrap bind]. unfold assert_. rewrite window_neg.
+  rewrite app_length. replace (S (length (repeat zero k) + length P)) with (k + S (length P)) by (rewrite repeat_length; lia).
+  rewrite phaseA by lia.
+  cbn [Greedy.naive_loop].
+  assert (Hsp : slice P 0 la = Some (map (mul a) rwin)).
+  { apply slice_some_iff. split; [lia|]. cbn [skipn]. unfold P.
+    rewrite firstn_app. replace (la - length (map (mul a) (firstn m response))) with 0 by (rewrite map_length; lia).
+    cbn [firstn]. rewrite app_nil_r, firstn_map, firstn_firstn. replace (Nat.min la m) with la by lia. reflexivity. }
+  rewrite Hsp. rewrite (pulse_window_neg _ window_neg).
+  unfold Greedy.fire. rewrite (pulse_quotients _ window_neg).
+  rewrite firstn_length. replace (Nat.min la (length response)) with (S (la - 1)) by lia.
+  cbn [repeat Greedy.reduce_min unwrap bind]. rewrite fold_min_repeat.
+  unfold P at 1. rewrite (pulse_cancel response m t Ht). rewrite <- HPl.
+  replace (length P) with (S (length P - 1)) at 1 by lia. cbn [repeat].
+  rewrite phaseC by lia. unfold Greedy.finish. cbn [bind].
+  f_equal. f_equal.
+  - unfold Greedy.sumsq. apply sumsq_zeros; [|reflexivity].
+    apply Forall_app. split; [|apply Forall_repeat_zero].
+    apply Forall_rev. constructor; [reflexivity|]. apply Forall_app. split; [apply Forall_repeat_zero|constructor].
+  - rewrite app_nil_r. cbn [rev]. rewrite rev_repeat_, repeat_length, <- app_assoc. reflexivity.
+Qed.
+End Pulse.
+
 End GreedyProofs.
 
 (* Statements with exactly the parameters they mention (inside the Section `lia` makes every lemma
